@@ -34,7 +34,7 @@ def client_tables():
     row = lambda n: ' '.join(['1'] * n)
 
     def block(name, n):
-        return f'*  {name}  *\n***\nh1\nh2\nh3\n{row(n)}\n\n\n'
+        return f'*  {name}  *\n***\nh1\nh2\nh3\n' + f'{row(n)}\n' * 4 + '\n\n'
 
     with tempfile.TemporaryDirectory() as d:
         p = Path(d, 'r.out')
